@@ -11,6 +11,7 @@ Clause → theorem
 | every handler that names a position checks the owner on every route to success | `position_handlers_owner_guarded` (whole regenerated table, `decide`) + reviewed allow-list `ownerless`, `ownerless_tight` |
 | … hence any non-owner delivery on any such route is rejected and changes nothing, whatever the writes and other checks are | `nonowner_rejected_on_every_route` |
 | handlers whose owner check comes after a write (need the message cache) | `owner_after_write_pinned` |
+| the named position is the one the message's descriptive ids (app, product, asset) describe: each stored field compared on its own | `position_consistency_guarded`, `no_weak_consistency_guard`, `consistency_rows_pinned` |
 | every custom wasm message: the extracted guard is the expected one (20 handlers, both networks, right contract index) | `wasm_guards_expected`, `wasm_authorized_iff_designated` |
 | kill switch admin-only | `admin_only_killswitch`, `admin_guard_blocks` |
 | table sizes / spot entries | `table_sizes`, `handler_names_pinned`, `spot_*`, `every_handler_has_exit` |
@@ -140,13 +141,15 @@ theorem route_rejects {σ : Type} (sem : Sem σ) (route : List Item) (c : Nat) (
   (`GetMMOrderIndex(ctx, orderer, …)`, swap.go:556); no id comes from the message.
 * `auctionsV2.MsgPlaceMarketBid` — a bid on a running auction of an already liquidated position; any bidder may bid, the
   borrow/lend records are read to settle the auction.
+* `auction.MsgPlaceDutchLendBid` — the gen-1 counterpart for lend auctions: any bidder; the liquidated borrow / lend records are
+  read to settle (the auction itself is found by the key (app, mapping, auction id) of the message).
 * `liquidation.MsgLiquidateVault`, `liquidation.MsgLiquidateBorrow`, `liquidationsV2.MsgLiquidateInternalKeeper` —
   liquidation of an unhealthy position by any keeper is the mechanism itself; the guard is the health test, not ownership. -/
 def ownerless : List String := [
   "vault.MsgDepositStableMint", "vault.MsgWithdrawStableMint", "vault.MsgVaultInterestCalc",
   "locker.MsgLockerRewardCalc", "lend.CalculateInterestAndRewards", "liquidity.MMOrder", "liquidity.CancelMMOrder",
   "auctionsV2.MsgPlaceMarketBid", "liquidation.MsgLiquidateVault", "liquidation.MsgLiquidateBorrow",
-  "liquidationsV2.MsgLiquidateInternalKeeper"]
+  "liquidationsV2.MsgLiquidateInternalKeeper", "auction.MsgPlaceDutchLendBid"]
 
 /-- **Every** MsgServer method of the table: on every route to a successful return that can follow a position read not keyed
 by the signer, the owner comparison is executed — or the handler is on the reviewed allow-list. -/
@@ -193,6 +196,55 @@ theorem nonowner_rejected_on_every_route {σ : Type} :
   have h2 := hauth p hp
   simp only [hn, Bool.not_true, Bool.false_or] at h2
   exact route_rejects sem _ 1 false e s h2 (by decide) (by simp [GClass.ofCode, GClass.fails, hs])
+
+/-! ## consistency of the named position with the message's descriptive ids -/
+
+/-- A message that carries a position id AND descriptive ids (app, extended pair / product, asset) must act only on the position
+those ids describe: the handler compares the stored position's fields with them, each comparison standing alone (two
+mismatch tests joined by `&&` reject only when BOTH mismatch, so e.g. a vault of the same app but another product would get
+through). Expected (from the code anchors; each pair dominates every exit that follows the position read): -/
+def expectedConsistency : List (String × List String) := [
+  ("vault.MsgDeposit", ["AppId", "ExtendedPairVaultID"]), ("vault.MsgWithdraw", ["AppId", "ExtendedPairVaultID"]),
+  ("vault.MsgDraw", ["AppId", "ExtendedPairVaultID"]), ("vault.MsgRepay", ["AppId", "ExtendedPairVaultID"]),
+  ("vault.MsgClose", ["AppId", "ExtendedPairVaultID"]), ("vault.MsgDepositAndDraw", ["AppId", "ExtendedPairVaultID"]),
+  ("vault.MsgDepositStableMint", ["AppId", "ExtendedPairVaultID"]),
+  ("vault.MsgWithdrawStableMint", ["AppId", "ExtendedPairVaultID"]),
+  ("locker.MsgDepositAsset", ["AssetDepositId", "AppId"]), ("locker.MsgWithdrawAsset", ["AssetDepositId", "AppId"]),
+  ("locker.MsgCloseLocker", ["AssetDepositId", "AppId"]), ("locker.MsgLockerRewardCalc", ["AppId"]),
+  ("lend.Borrow", ["AssetID"]), ("auctionsV2.MsgWithdrawLimitBid", ["DebtToken.Denom"]),
+  ("liquidation.MsgLiquidateVault", ["AppId"])]
+
+theorem spec_consistency : Spec.consistencyExpected = expectedConsistency.map (·.1) := rfl
+
+/-- every expected (handler, position field): a stand-alone comparison of that field dominates every exit after the read -/
+theorem position_consistency_guarded :
+    ∀ p ∈ expectedConsistency, ∃ h ∈ handlers, qname h = p.1 ∧ ∀ t ∈ p.2, consistencyGuarded h t = true := by decide +kernel
+
+/-- no consistency comparison is weakened by an `&&` with another test, in any handler -/
+theorem no_weak_consistency_guard : ∀ h ∈ handlers, hasWeakConsistency h = false := by decide +kernel
+
+/-- all consistency comparisons the table contains, per handler, with whether they dominate every exit (the lend denom checks
+come after early successful returns of inlined accrual helpers / the exact-debt close shortcut and are pinned as such) -/
+theorem consistency_rows_pinned :
+    ((handlers.filter fun h => !(consistencyTags h).isEmpty).map fun h =>
+        (qname h, (consistencyTags h).map fun t => (t, consistencyGuarded h t))) =
+      [("vault.MsgDeposit", [("AppId", true), ("ExtendedPairVaultID", true)]),
+       ("vault.MsgWithdraw", [("AppId", true), ("ExtendedPairVaultID", true)]),
+       ("vault.MsgDraw", [("AppId", true), ("ExtendedPairVaultID", true)]),
+       ("vault.MsgRepay", [("AppId", true), ("ExtendedPairVaultID", true)]),
+       ("vault.MsgClose", [("AppId", true), ("ExtendedPairVaultID", true)]),
+       ("vault.MsgDepositAndDraw", [("AppId", true), ("ExtendedPairVaultID", true)]),
+       ("vault.MsgDepositStableMint", [("AppId", true), ("ExtendedPairVaultID", true)]),
+       ("vault.MsgWithdrawStableMint", [("AppId", true), ("ExtendedPairVaultID", true)]),
+       ("locker.MsgDepositAsset", [("AssetDepositId", true), ("AppId", true)]),
+       ("locker.MsgWithdrawAsset", [("AssetDepositId", true), ("AppId", true)]),
+       ("locker.MsgCloseLocker", [("AssetDepositId", true), ("AppId", true)]),
+       ("locker.MsgLockerRewardCalc", [("AppId", true)]),
+       ("lend.Borrow", [("AssetID", true), ("AmountOut.Denom", false)]),
+       ("lend.Repay", [("AmountOut.Denom", false)]), ("lend.Draw", [("AmountOut.Denom", false)]),
+       ("lend.BorrowAlternate", [("AssetID", false), ("AmountOut.Denom", false)]),
+       ("auctionsV2.MsgWithdrawLimitBid", [("DebtToken.Denom", true)]),
+       ("liquidation.MsgLiquidateVault", [("AppId", true)])] := by decide +kernel
 
 /-! ## custom wasm messages -/
 
@@ -251,7 +303,7 @@ theorem spec_wasm_count : Spec.wasmExpected.length = 20 ∧ (Spec.wasmExpected.f
 
 /-! ## pinned sizes and spot entries (an extractor that silently returns nothing fails here) -/
 
-theorem table_sizes : handlers.length = 58 ∧ wasmHandlers.length = 20 ∧ sweeps.length = 7 ∧ wasmAddrLists.length = 2 := by decide +kernel
+theorem table_sizes : handlers.length = 62 ∧ wasmHandlers.length = 20 ∧ sweeps.length = 7 ∧ wasmAddrLists.length = 2 := by decide +kernel
 
 theorem every_handler_has_exit : ∀ h ∈ handlers, hasExit h = true := by decide +kernel
 
@@ -272,7 +324,9 @@ theorem handler_names_pinned : handlers.map qname = [
     "esm.DepositESM", "esm.ExecuteESM", "esm.MsgKillSwitch", "esm.MsgCollateralRedemption",
     "liquidation.MsgLiquidateVault", "liquidation.MsgLiquidateBorrow",
     "liquidationsV2.MsgLiquidateInternalKeeper", "liquidationsV2.MsgAppReserveFunds",
-    "liquidationsV2.MsgLiquidateExternalKeeper"] := by decide +kernel
+    "liquidationsV2.MsgLiquidateExternalKeeper",
+    "auction.MsgPlaceSurplusBid", "auction.MsgPlaceDebtBid", "auction.MsgPlaceDutchBid", "auction.MsgPlaceDutchLendBid"] := by
+  decide +kernel
 
 /-- the message signer field found in each module's `GetSigners` -/
 theorem spot_signers :
@@ -284,18 +338,18 @@ theorem spot_signers :
 /-- vault.MsgRepay: the classified unconditional trunk guards in order, each before the first write -/
 theorem spot_vault_repay :
     ((find? "vault.MsgRepay").map fun h =>
-      (h.items.filter fun it => it.kind == 0 && it.cls != 0 && !it.cond).map fun it => (it.cls, it.wb)) =
+      (h.items.filter fun it => it.kind == 0 && it.cls != 0 && it.cls < 7 && !it.cond).map fun it => (it.cls, it.wb)) =
     some [(2, false), (3, false), (1, false)] := by decide +kernel
 
 /-- lend.Withdraw: trunk = breaker, (accrual write), owner; early close branch = breaker, (write), owner -/
 theorem spot_lend_withdraw :
     ((find? "lend.Withdraw").map fun h =>
-      (h.items.filter fun it => it.kind == 0 && it.cls != 0 && !it.cond).map fun it => (it.cls, it.path.length, it.wb)) =
+      (h.items.filter fun it => it.kind == 0 && it.cls != 0 && it.cls < 7 && !it.cond).map fun it => (it.cls, it.path.length, it.wb)) =
     some [(3, 1, false), (1, 1, true), (3, 0, false), (1, 0, true)] := by decide +kernel
 
 theorem spot_cancel_order :
     ((find? "liquidity.CancelOrder").map fun h =>
-      (h.items.filter fun it => (it.kind == 0 && it.cls != 0) || it.kind == 2).map fun it => (it.kind, it.cls, it.keyed, it.wb)) =
+      (h.items.filter fun it => (it.kind == 0 && it.cls != 0 && it.cls < 7) || it.kind == 2).map fun it => (it.kind, it.cls, it.keyed, it.wb)) =
     some [(2, 0, false, false), (0, 1, false, false)] := by decide +kernel
 
 end Comdex.C12
